@@ -17,7 +17,7 @@ DT = 2.0 ** -31
 N_ICE = 1.78
 MODELS = {'ZHS': ZHSAskaryanSignal, 'AVZ': AVZAskaryanSignal, 'ARZ': ARZAskaryanSignal}
 R0 = 100.0
-E0 = 1e9
+ENERGY = {0: 1e9, 1: 100.0, 2: 1.0, 3: 0.1, 4: 0.01}     # GeV: far above every threshold ... below every critical energy
 DELTA = 0.02
 TOL = 1e-9
 
@@ -55,7 +55,8 @@ class AskaryanDriver:
         t0 = (g0 + n // 2 + st['mt']) * dt
         em, had = st['frac']
         tot = float(em + had)
-        p = pyrex.Particle('nu_e', (0, 0, -1000.0), (0, 0, 1), E0 * st['kE'], interaction_type='cc')
+        p = pyrex.Particle('nu_e', (0, 0, -1000.0), (0, 0, 1), 1e9, interaction_type='cc')
+        p.energy = ENERGY[st['en']] * st['kE']
         p.interaction.em_frac, p.interaction.had_frac = em / tot, had / tot
         if st['zero']:
             if (how or self.zero_how) == 'energy':
@@ -115,14 +116,17 @@ class AskaryanDriver:
     def scan(self, st):
         """peak amplitudes on an angle lattice around the cone"""
         thc = theta(0)
-        for delta, strict in ((DELTA, True), (DELTA / 4, False)):
+        for delta in (DELTA, DELTA / 4):
             amps = np.array([np.max(np.abs(self.field(st, ang=thc + delta * k)[0])) for k in range(-6, 7)])
-            if not np.argmax(amps) == 6:
+            if not np.any(amps > 0):
+                continue                                  # no pulse at all (e.g. sub-TeV hadronic shower in AVZ, below-critical ARZ)
+            if not amps[6] >= np.max(amps):
                 raise Divergence('%s frac %s: angle of the largest peak amplitude on the lattice theta_c + %g k' % (st['model'], st['frac'], delta),
                                  'k = 0 (on the cone)', 'k = %d; %s' % (int(np.argmax(amps)) - 6, list(np.round(amps / amps[6], 4))))
-            mono = bool(np.all(np.diff(amps[:7]) > 0) and np.all(np.diff(amps[6:]) < 0))
+            out = list(amps[6::-1]), list(amps[6:])          # walking away from the cone on either side
+            mono = all(b < a_ or (a_ == 0 and b == 0) for side in out for a_, b in zip(side, side[1:]))
             if not mono:
-                if not strict and st['model'] == 'ARZ':
+                if st['model'] == 'ARZ':
                     self.known.append(('D29', 'ARZ peak amplitude is not monotone in the angular distance on a %g rad lattice '
                                               '(decimation without anti-aliasing of a pulse narrower than a sample)' % delta))
                     continue
